@@ -899,6 +899,73 @@ func runWitness(in, kind, root, trace string, sum *tl.Summary) {
 	sum.Rule = "model witnesses of a known finding replayed on the real pool; distinct = witnesses whose final real state violates the strict property"
 }
 
+// scripts are short directed behaviours run before the random ones: situations the random generator
+// reaches too rarely (accounts with spread eviction priorities whose bottleneck improves, then an
+// overflow eviction; a limbo entry that limbo.update moves to another block, then a restart).
+func scripts() [][]act {
+	mk := func(from string, nonce, tip, cap, bcap int64) *atx {
+		if !safeFees(cap, bcap) {
+			tl.Fatal("script fee (%d,%d) is not rounding-safe", cap, bcap)
+		}
+		a := mkAbs(from, nonce, tip, cap, bcap)
+		return &a
+	}
+	gen := func() *ablock {
+		g := norm(&ablock{Bfj: headBfj[0], Blj: headBlj[0]}) // base fee 1000, blob fee 1
+		for _, n := range acctNames {
+			g.Bal[n] = 1_000_000_000
+		}
+		return g
+	}
+	block := func(parent, num int64, nonce map[string]int64, txs ...*atx) *ablock {
+		b := norm(&ablock{Parent: parent, Num: num, Bfj: headBfj[0], Blj: headBlj[0]})
+		for _, n := range acctNames {
+			b.Nonce[n], b.Bal[n] = nonce[n], 1_000_000_000
+		}
+		for _, t := range txs {
+			b.Txs = append(b.Txs, *t)
+		}
+		return b
+	}
+	add := func(t *atx) act { return act{Op: "add", Tx: t} }
+	var out [][]act
+	// S1: a1's bottleneck (cap 600, below the base fee) is replaced upward; a2 stays below the base fee;
+	// the next submission overflows the capacity: the victim must be an account of the lowest priority
+	out = append(out, []act{
+		{Op: "init", Cfg: &acfg{Cap: 4, Bump: 100}, Genesis: gen(), Tip: 1},
+		add(mk("a2", 0, 5, 900, 30)), add(mk("a1", 0, 5, 600, 30)), add(mk("a1", 1, 5, 2400, 30)), add(mk("a3", 0, 5, 2400, 60)),
+		add(mk("a1", 0, 10, 1500, 60)), // replacement: a1's thresholds improve
+		add(mk("a3", 1, 5, 2400, 60)),  // overflow: evict
+		add(mk("a3", 1, 5, 5000, 60)), add(mk("a1", 2, 5, 2400, 30)),
+	})
+	// S2: raising the tip truncates a1 behind its well-paying first transaction
+	out = append(out, []act{
+		{Op: "init", Cfg: &acfg{Cap: 4, Bump: 100}, Genesis: gen(), Tip: 1},
+		add(mk("a1", 0, 10, 2400, 30)), add(mk("a1", 1, 1, 600, 30)), add(mk("a2", 0, 10, 900, 30)), add(mk("a3", 0, 10, 2400, 60)),
+		{Op: "settip", Tip: 5},
+		add(mk("a3", 1, 10, 2400, 60)), add(mk("a1", 1, 10, 2400, 60)), // fill up and overflow
+	})
+	// S3 (both role assignments: which limbo slot is freed depends on Go map order): two included
+	// transactions sit in the limbo; a reorg brings one back into the pool (its limbo slot is freed but
+	// not overwritten); an abrupt stop resurrects that slot; the transaction is included again one block
+	// higher, limbo.update moves the entry; after a restart it must still be filed under the new block
+	for _, r := range [][2]string{{"a1", "a2"}, {"a2", "a1"}} {
+		t, u := mk(r[0], 0, 5, 2400, 30), mk(r[1], 0, 5, 2400, 60)
+		out = append(out, []act{
+			{Op: "init", Cfg: &acfg{Cap: 5, Bump: 100}, Genesis: gen(), Tip: 1},
+			add(t), add(u),
+			{Op: "reset", ID: 1, Block: block(0, 1, map[string]int64{r[0]: 1, r[1]: 1}, t, u)},
+			{Op: "reset", ID: 2, Block: block(0, 1, map[string]int64{r[1]: 1}, u)},
+			{Op: "crash"},
+			{Op: "reset", ID: 3, Block: block(2, 2, map[string]int64{r[0]: 1, r[1]: 1}, t)},
+			{Op: "reopen"},
+			{Op: "reset", ID: 4, Block: block(3, 3, map[string]int64{r[0]: 1, r[1]: 1}), Final: 1},
+			{Op: "reset", ID: 5, Block: block(2, 2, map[string]int64{r[1]: 1}), Final: 1}, // reorg: t must be resurrected
+		})
+	}
+	return out
+}
+
 func runRecord(root, trace string, seed int64, ntraces, nsteps int, sum *tl.Summary) {
 	r := tl.Rand(seed)
 	tr := tl.NewTrace(trace)
@@ -907,6 +974,18 @@ func runRecord(root, trace string, seed int64, ntraces, nsteps int, sum *tl.Summ
 	caps := []int64{600, 900, 1100, 1500, 2400, 5000} // some below the head base fees: negative priorities
 	bcaps := []int64{2, 5, 30, 60, 130}
 	bals := []int64{30_000_000, 60_000_000, 130_000_000, 300_000_000, 1_000_000_000}
+	for _, sc := range scripts() {
+		sc := sc
+		n := run(tr, root, sc[0], func(i int) *act {
+			if 1+i >= len(sc) {
+				return nil
+			}
+			return &sc[1+i]
+		}, sum)
+		sum.Traces++
+		sum.Evaluations++
+		sum.Steps += n
+	}
 	for t := 0; t < ntraces; t++ {
 		cfg := &acfg{Cap: int64(2 + r.Intn(4)), Bump: []int64{100, 100, 50}[r.Intn(3)]}
 		gen := norm(&ablock{Bfj: headBfj[r.Intn(len(headBfj))], Blj: headBlj[r.Intn(len(headBlj))]})
